@@ -831,6 +831,14 @@ func (conn *diskConn) initWriter(width, height uint32, track *diskTrack, ts uint
 	}
 
 	if track != nil {
+		if !valid(track.origin) {
+			// we have just closed the previous file, which
+			// reset the origins
+			track.setOrigin(
+				ts, time.Now(),
+				track.remote.Codec().ClockRate,
+			)
+		}
 		track.adjustOrigin(ts)
 	}
 
